@@ -166,6 +166,9 @@ macro "kk" : tactic =>
   unfold releaseId; simp only []; split <;> rfl
 @[scoped simp] theorem K_releaseIfUsed (g0 : Nat) (c : C) (id : Nat) : K g0 (releaseIfUsed c id) = K g0 c := by
   unfold releaseIfUsed; split <;> simp
+@[scoped simp] theorem K_releasePacketId (g0 : Nat) (c : C) (id : Nat) : K g0 (releasePacketId c id) = K g0 c :=
+  releasePacketId_ind (Q := fun c' => K g0 c' = K g0 c) c id (K_releaseIfUsed g0 c id) (fun h => h)
+    (fun h => (K_decSendCount g0 _).trans h)
 @[scoped simp] theorem K_releaseAll (g0 : Nat) (l : List Nat) : ∀ c, K g0 (releaseAll c l) = K g0 c := by
   induction l with
   | nil => intro c; rfl
